@@ -5,8 +5,10 @@
 //! earlier one. Every memory-dependency edge links such a conflicting pair, and two reads of a
 //! region with no write between them are never ordered by memory edges."
 //!
-//! Accesses are taken from `DefaultHandler::memory_accesses` (checked against the instruction
-//! semantics separately, in C27), so this property tests the graph construction.
+//! Accesses are the ones the instruction semantics give (`model::mem`, the reference table C27
+//! compares `DefaultHandler::memory_accesses` with on every instruction kind), so a handler that
+//! under-reports an access shows up here as an unordered conflicting pair; CALL uses the handler's
+//! report (its accesses depend on the extern signature).
 
 use super::sched::{self, Edges, Mem};
 use crate::engine::{lib, Case, Check, Ctx, Outcome, Property, Src, Tier};
@@ -67,7 +69,7 @@ pub fn oracle(program: &Program, text: &str, out: &mut Outcome) -> Check {
         let graph = block.get_dependency_graph();
         let edges = Edges::of(graph);
         let nodes = sched::block_nodes(block);
-        let acc: Vec<Option<Mem>> = nodes.iter().map(|(_, i)| sched::mem_accesses(&map, i)).collect();
+        let acc: Vec<Option<Mem>> = nodes.iter().map(|(_, i)| sched::mem_accesses_by_semantics(&map, i)).collect();
         if acc.iter().any(|a| a.is_none()) {
             out.class("accesses-unavailable");
             continue;
